@@ -28,7 +28,12 @@ RULE = (
     "surface as that exception from every configuration and schedule, and when no task is left the "
     "result must be complete (stuck = violation). A stress mode runs a real 8-thread pool with seeded "
     "resolver latencies and sys.monitoring LINE yield injection inside runtime/threadpool.py, "
-    "executor.py and wrappers.py. Non-trivial = distinct (request, configuration, schedule) with >= 2 "
+    "executor.py and wrappers.py. "
+    "A fifth of the resolvers hand their work to info.runtime.submit() and return what they get; "
+    "every class of the unexpected-exception family gets its turn across cases and shards; "
+    "arguments are occasionally named like parameters of library internals (func, self, fn, args, "
+    "kwargs).  "
+    "Non-trivial = distinct (request, configuration, schedule) with >= 2 "
     "deferred resolvers."
 )
 ASSUMPTIONS = [
